@@ -213,6 +213,8 @@ class NpShim:
         return _np.sin(x)
 
     def abs(self, x):
+        if isinstance(x, SymBool):      # np.abs(a == b): numpy maps True/False to 1/0, truthiness unchanged
+            return x
         if isinstance(x, Sym):
             return abs(x)
         if isinstance(x, _np.ndarray) and x.dtype == object:
@@ -239,6 +241,21 @@ class NpShim:
         if _has_sym(a) or _has_sym(b):
             return bool(_np.all(self.isclose(a, b, rtol, atol)))
         return _np.allclose(a, b, rtol=rtol, atol=atol, **k)
+
+    def divide(self, a, b, out=None, where=True, **k):
+        if _has_sym(a) or _has_sym(b) or _has_sym(out) or _has_sym(where):
+            a_, b_ = _np.broadcast_arrays(_np.asarray(a, dtype=object), _np.asarray(b, dtype=object))
+            res = _np.empty(a_.shape, dtype=object)
+            wh = _np.broadcast_to(_np.asarray(where, dtype=object), a_.shape)
+            for idx in _np.ndindex(a_.shape):
+                if bool(wh[idx]):
+                    res[idx] = a_[idx] / b_[idx]
+                elif out is not None:
+                    res[idx] = out[idx]
+                else:
+                    raise core.EngineLimit('np.divide(where=...) without out= leaves entries uninitialised')
+            return res
+        return _np.divide(a, b, out=out, where=where, **k)
 
     def searchsorted(self, a, v, side='left', **k):
         if hasattr(a, '_pvc_searchsorted'):
